@@ -335,6 +335,20 @@ func typeM[T any](m matcherSpec) bothMatcher {
 func (m matcherSpec) build(w *world) bothMatcher {
 	switch m.kind {
 	case "A":
+		if strings.Contains(m.flags, "r") {
+			// a matcher VALUE that has been applied before (to a YAML and to a JSON document) under another
+			// placeholder and is configured again: what counts is the placeholder it carries now (direct worlds only)
+			a := match.Any(m.paths...).ErrOnMissingPath(m.eom).Placeholder("placeholder of the first use")
+			// (the first use is on the document the matcher is about to see, so that every path it names is found)
+			a.YAML(append([]byte("warm: up\n"), warmDoc...))
+			a.JSON(append([]byte(nil), warmDoc...))
+			if m.ph != "-" {
+				a = a.Placeholder(decodeLit(unhx(m.ph)))
+			} else {
+				a = a.Placeholder("<Any value>")
+			}
+			return a
+		}
 		if m.stmt {
 			// built first, configured afterwards, the values returned by the option methods are dropped
 			a := match.Any(m.paths...)
@@ -1176,6 +1190,7 @@ func (w *world) exec1(line string) {
 		cur := append([]byte(nil), doc...)
 		var parts []string
 		for _, mt := range tok[3:] {
+			warmDoc = append([]byte(nil), cur...)
 			m := w.matcher(mt)
 			whole, callers := w.callerBytes(cur)
 			keep := append([]byte(nil), callers...)
@@ -1640,6 +1655,9 @@ func init() {
 		flag.Bool("update", false, "harness: stands for a golden-file flag declared by the user's tests")
 	}
 }
+
+// the document a reused matcher value (flag `r`) is applied to once before it is configured again
+var warmDoc []byte
 
 // annW is the stream of lines handed to the model; it remembers the last line written
 type annW struct {
